@@ -23,8 +23,14 @@ def datasheet_requirements(module, nphases):
     tck_ns = Fraction(10 ** 9) / Fraction(module.clk_freq) / nphases
     frm = getattr(module.timing_settings, "fine_refresh_mode", None)
     req = {}
+    src = {}
     for name in ("tRP", "tRCD", "tWR", "tWTR", "tFAW", "tCCD", "tRRD", "tRAS", "tZQCS"):
         req[name] = req_tck(module.get(name), tck_ns)
+        d = module.get(name)
+        if d is not None:
+            ns_part = req_tck((0, d[1]), tck_ns)
+            src[name] = "ck" if (d[0] or 0) > ns_part else "ns"
+    req["_src"] = src
     req["tRFC"] = req_tck(module.get("tRFC", frm), tck_ns)
     if module.get("tRAS") is not None:
         trp, tras = module.get("tRP"), module.get("tRAS")
@@ -57,6 +63,7 @@ class TimingChecker:
         self.WL, self.BURST = write_latency_and_burst(memtype, nphases, cwl)
         self.nranks = nranks
         self.nbanks = nbanks
+        self.nphases = nphases
         self.viol = []
         self.stats = {}   # rule -> [count, min slack]
 
@@ -70,7 +77,15 @@ class TimingChecker:
             s[1] = slack
         if slack < 0:
             if len(self.viol) < 50:
-                self.viol.append(dict(kind="timing", rule=rule, actual_tck=actual, required_tck=need, **ctx))
+                tname = rule.split()[0]
+                t2 = ctx.get("t")
+                t1 = [v_ for k_, v_ in ctx.items() if k_.startswith("t_") and v_ is not None]
+                extra = {}
+                if t2 is not None and t1:
+                    extra = dict(phase_first=t1[0] % self.nphases, phase_second=t2 % self.nphases,
+                                 controller_cycles_apart=t2 // self.nphases - t1[0] // self.nphases)
+                self.viol.append(dict(kind="timing", rule=rule, actual_tck=actual, required_tck=need, nphases=self.nphases,
+                                      requirement_from=(self.req.get("_src") or {}).get(tname), **extra, **ctx))
 
     def run(self, cmds):
         """cmds: list of (t, cycle, phase, rank, name, bank, addr, a10), any order."""
